@@ -8,8 +8,8 @@ PID = "C13"
 REWRITES = [("pkg/regserver/regprocessor/regprocessor.go", ["-swap", "sync=vsync", "-swap", "time=vtime", "-swap", "context=vctx", "-go", "-chan"])]
 INJECTS = [("harness/c13/regprocessor_verif.go", "pkg/regserver/regprocessor/zz_verif_c13.go"),
            ("harness/c13/main/main.go", "internal/zzverif_c13/main.go")]
-QUICK = ["4/1", "6/1", "d/1", "d/2", "4,6/1", "d,4/1", "d,d/1", "d,6/2", "d,d/2", "e:6/1", "e:d/1", "e:d/2", "e:d,4/1", "e:6,d/2", "s/1", "s,4/1", "4,s/2", "u/1", "p/1", "u,d/1", "p,d/2", "d/1b", "d/2b", "4,6/2g", "d,d/2b"]
-THOROUGH = QUICK + ["s,d/2", "s,s/1", "s,4,6/1", "e:s,4/1", "s,4/1b", "d,d,d/1", "d,4,6/2", "d,d,4/2", "d,d,d/2", "d/3", "d,d/3", "e:d,d/2", "e:d,6,4/2", "e:d/3", "e:6,6/3", "u,p/2", "u,d,d/2", "p,p/3", "d/3b", "d,4,6/2b", "d,d/3g"]
+QUICK = ["4/1", "6/1", "d/1", "d/2", "4,6/1", "d,4/1", "d,d/1", "d,6/2", "d,d/2", "e:6/1", "e:d/1", "e:d/2", "e:d,4/1", "e:6,d/2", "s/1", "s,4/1", "4,s/2", "load:2x3", "u/1", "p/1", "u,d/1", "p,d/2", "d/1b", "d/2b", "4,6/2g", "d,d/2b"]
+THOROUGH = QUICK + ["load:3x3", "load:2x5", "s,d/2", "s,s/1", "s,4,6/1", "e:s,4/1", "s,4/1b", "d,d,d/1", "d,4,6/2", "d,d,4/2", "d,d,d/2", "d/3", "d,d/3", "e:d,d/2", "e:d,6,4/2", "e:d/3", "e:6,6/3", "u,p/2", "u,d,d/2", "p,p/3", "d/3b", "d,4,6/2b", "d,d/3g"]
 
 ASSUME = ["sync.RWMutex modelled with Go's writer preference (announce, then acquire); Unlock/RUnlock are not scheduling points (release commutes with the releasing thread's next local steps)",
           "scheduling points only at lock acquisitions and thread spawn; unsynchronised accesses are outside this check",
